@@ -193,8 +193,12 @@ def gen_stall_shutdown(rng, n):
     out = []
     for i in range(n):
         st = rng.choice([300, 500])
+        nent = rng.randint(80, 200)
+        # every other scenario: some of the backlog that the final drain hands over is rejected with an I/O
+        # or validation error - the drain still goes through the whole backlog
+        res = {} if i % 2 == 0 else {str(10001 + k): rng.choice(["io", "io", "val"]) for k in range(2, nent) if rng.random() < 0.15}
         out.append({"cap": 512, "boxed": rng.random() < 0.5, "flush_us": rng.choice([1000, 50000]),
-                    "producers": [{"n": rng.randint(80, 200), "pace_us": 0}], "results": {}, "flushers": [],
+                    "producers": [{"n": nent, "pace_us": 0}], "results": res, "flushers": [],
                     "stall": {"k": 1}, "shutdown_timeout_ms": st, "hold_stall_ms": st + 400, "end": "drop",
                     "kind": "stall-shutdown"})
     return out
@@ -725,7 +729,7 @@ def run(prop, tier):
         scen += gen_allfail_progress(rng, 3 if q else 30) + gen_pingpong(rng, 6 if q else 60)
         scen += gen_overflow_then_flush(rng, 3 if q else 30)
     if prop == "C05":
-        scen += gen_forget_slowflush(rng, 6 if q else 60) + gen_flush_faults(rng, 4 if q else 40) + gen_stall_shutdown(rng, 3 if q else 20) + gen_drop_variants(rng, 4 if q else 40) + gen_aod(rng, 4 if q else 40)
+        scen += gen_forget_slowflush(rng, 6 if q else 60) + gen_flush_faults(rng, 4 if q else 40) + gen_stall_shutdown(rng, 4 if q else 20) + gen_drop_variants(rng, 4 if q else 40) + gen_aod(rng, 4 if q else 40)
         scen += gen_unused_forget(rng, 3 if q else 20)
     if prop == "C09":
         scen += gen_forget_slowflush(rng, 6 if q else 40)
